@@ -44,6 +44,54 @@ fn pat(kind: Kind, sep: char) -> String {
     }
 }
 
+/// a pattern of the same length as `p` that a cheap fingerprint cannot tell from it
+fn lookalike(p: &str, h: u64) -> Option<String> {
+    let b = p.as_bytes();
+    if !p.is_ascii() || b.len() < 2 {
+        return None;
+    }
+    let ok = |c: i32| (0x20..0x7f).contains(&c) && c != '\'' as i32;
+    let n = b.len();
+    let kind = h % 6;
+    let start = (h / 6) as usize % (n - 1);
+    for j in 0..n - 1 {
+        let i = (start + j) % (n - 1);
+        let (x, y) = (b[i] as i32, b[i + 1] as i32);
+        let cand: Option<(i32, i32)> = match kind {
+            // x*m + y is kept for m = 31 and m = 33
+            0 | 1 => {
+                let m = if kind == 0 { 31 } else { 33 };
+                if ok(x + 1) && ok(y - m) {
+                    Some((x + 1, y - m))
+                } else if ok(x - 1) && ok(y + m) {
+                    Some((x - 1, y + m))
+                } else {
+                    None
+                }
+            }
+            // the sum (and the multiset) of the bytes is kept
+            2 => if x != y { Some((y, x)) } else { None },
+            // the sum is kept
+            3 => if ok(x + 1) && ok(y - 1) { Some((x + 1, y - 1)) } else { None },
+            // same prefix, different last character / same suffix, different first character
+            _ => None,
+        };
+        if let Some((x2, y2)) = cand {
+            let mut v = b.to_vec();
+            v[i] = x2 as u8;
+            v[i + 1] = y2 as u8;
+            return String::from_utf8(v).ok();
+        }
+        if kind >= 4 {
+            break;
+        }
+    }
+    let mut v = b.to_vec();
+    let at = if kind == 4 { n - 1 } else { 0 };
+    v[at] = if v[at] == b'd' { b'e' } else { b'd' };
+    String::from_utf8(v).ok()
+}
+
 pub struct TextForms;
 impl Prop for TextForms {
     type Case = Case;
@@ -106,9 +154,15 @@ impl Prop for TextForms {
             let h = (c.v.ns as u64 / 3) ^ (c.v.day as u64) ^ ((c.off as u64) << 7);
             let k = step.get();
             step.set(k + 1);
-            let p = PATTERNS[((h / 3 + k) % PATTERNS.len() as u64) as usize];
-            let others: Vec<Kind> = [Kind::Date, Kind::Time, Kind::DateTime].into_iter().filter(|o| *o != c.kind).collect();
-            let o = others[((h / 64 + k) % 2) as usize];
+            let p0 = PATTERNS[((h / 3 + k) % PATTERNS.len() as u64) as usize];
+            // every other step: a look-alike of that pattern instead (same length and the same
+            // cheap fingerprint: multiplicative hashes with 31 / 33, byte sum, prefix, suffix),
+            // used by any of the three types, this one included
+            let alike = (h / 5 + k) % 2 == 1;
+            let p_alike = if alike { lookalike(p0, h / 7 + k * 13) } else { None };
+            let p: &str = p_alike.as_deref().unwrap_or(p0);
+            let others: Vec<Kind> = [Kind::Date, Kind::Time, Kind::DateTime].into_iter().filter(|o| p_alike.is_some() || *o != c.kind).collect();
+            let o = others[((h / 64 + k) % others.len() as u64) as usize];
             let parse_last = (h / 128 + k) % 2 == 0;
             let _ = catch(|| {
                 let d = mk_date(c.v.day);
